@@ -1,5 +1,5 @@
 """property id -> rules"""
-from rules import task_constraints, tasks, optional, logic, resources, resource_constraints, completeness, indicators, buffers, driver
+from rules import task_constraints, tasks, optional, logic, resources, resource_constraints, completeness, indicators, buffers, driver, solution
 from sa.selftest import self_test_rule
 
 NOTES = ("Every check decides structural clauses (necessary conditions) of its property from /repo's source as parsed on "
@@ -8,6 +8,21 @@ NOTES = ("Every check decides structural clauses (necessary conditions) of its p
 NOT_APPLICABLE = {}
 
 PROPERTIES = {
+    "C11": {
+        "rules": solution.RULES,
+        "thorough": [self_test_rule("C11")],
+        "level_text": "Dataflow inside build_solution, per configuration (horizon given or not, calendar settings, task class): "
+                      "start / end / duration / scheduled of every task of the unfiltered registry are read from the model value of "
+                      "exactly the constants the task rules constrain (duration chain exhaustive over the task classes); the task "
+                      "view and the resource view derive from the same busy-interval entry under predicates that are order-type-"
+                      "equivalent given start <= end of a busy interval; assignment tuples are (task name, start, end); the "
+                      "cumulative-unit marker agrees between writer and readers; reported horizon; calendar times as canonical "
+                      "linear forms.",
+        "level_note": "'Unscheduled tasks carry no assignment' and 'horizon >= every end' hold given the encodings decided by "
+                      "C01/C02/C06 - the conditional is stated, the model values themselves are runtime. Trusted: z3 model API.",
+        "explanation": "Static dataflow analysis of solver.py:build_solution on the extracted IR (attribute writes, list "
+                       "appends with their guards and loops), order-type equivalence of the two assignment predicates.",
+    },
     "C07": {
         "rules": driver.C07_RULES,
         "thorough": [self_test_rule("C07")],
